@@ -14,13 +14,15 @@ from __future__ import annotations
 import itertools
 import json
 import os
+import subprocess
+import sys
 from pathlib import Path
 
 from pydantic import BaseModel
 
 from soundevent import data, io
 
-from mc.runner import Out, scratch_dir
+from mc.runner import Out, jdump, scratch_dir
 from models import audiopaths as M
 from props.common import DT, U, is_rejection
 
@@ -32,7 +34,10 @@ RULE = (
     "directory B (none | A | absolute | relative; str/Path) x target file fresh / pre-existing (the pre-existing target is "
     "crossed with type x A x shapes, loaded without directory). Recording i is reachable through a "
     "different route per type (clip, sound event of a foreign recording, sequence, second clip, task clip, match). Non-trivial = a "
-    "directory is given on save or on load. State = case descriptor."
+    "directory is given on save or on load. State = case descriptor. Environment axis: all of the above in the runner's UTF-8 process; "
+    "a second, smaller product (8 types x A none/ASCII/unicode x ASCII/space/unicode/sibling shapes x B none//other x fresh/pre-existing "
+    "target; thorough: A as str/Path, shape pairs, 4 load directories) is executed in a child interpreter with a fully specified POSIX "
+    "C-locale environment (case descriptor key env='C-locale'), one child per block, same oracles plus failed_save_leaves_target."
 )
 ASSUMPTIONS = [
     "containment is lexical and component-wise on POSIX paths without '..' (the property does not settle '..'); '/data2/x.wav' is outside '/data'",
@@ -41,7 +46,9 @@ ASSUMPTIONS = [
     "relocated to B itself); each is checked for internal consistency",
     "loading an ABSOLUTE stored path (saved without directory) under a directory B is not defined by the property: executed, not judged",
     "'fails with an error' = any ValueError subclass (DESIGN section 3); stored paths are compared up to redundant separators",
-    "process text encoding can represent the paths (the runner's environment is UTF-8 mode); nothing exists on disk but the JSON target",
+    "nothing exists on disk but the JSON target; the property is locale independent (AOEF is JSON, i.e. UTF-8): the env='C-locale' "
+    "cases run with LC_ALL=C LANG=C PYTHONCOERCECLOCALE=0 PYTHONUTF8=0 and must behave exactly like the UTF-8 process",
+    "failed_save_leaves_target: whenever a save raises (expected or not) the target must be absent / byte-identical to its previous content",
 ]
 
 KINDS = ["recording_set", "dataset", "annotation_set", "annotation_project", "evaluation_set", "prediction_set", "model_run",
@@ -107,11 +114,98 @@ def bounds(tier):
         "shape_tuples": len(shape_tuples(tier)), "max_recordings": 3,
         "target_states": ["fresh", "pre-existing (with B = none only)"],
         "routes": ROUTES,
+        "environments": {"utf8": "runner process", ENV_C: LOCALE_ENV},
+        "locale_cases": sum(1 for blk in locale_blocks(tier) for _ in locale_cases_of(blk)),
     }
 
 
 def blocks(tier):
-    return [{"tier": tier, "kind": k, "a": a} for k in KINDS for a in a_forms(tier)]
+    return [{"tier": tier, "kind": k, "a": a} for k in KINDS for a in a_forms(tier)] + locale_blocks(tier)
+
+
+# ---------------------------------------------------------------- environment axis: POSIX / C locale child process
+ENV_C = "C-locale"
+LOCALE_ENV = {"LC_ALL": "C", "LANG": "C", "PYTHONCOERCECLOCALE": "0", "PYTHONUTF8": "0", "PYTHONHASHSEED": "0",
+              "PYTHONDONTWRITEBYTECODE": "1", "PYTHONWARNINGS": "ignore", "OMP_NUM_THREADS": "1", "OPENBLAS_NUM_THREADS": "1",
+              "MKL_NUM_THREADS": "1"}
+_TARGET_DIR = None  # set in the child: scratch directory handed over by the parent
+
+
+def locale_blocks(tier):
+    if tier == "quick":
+        return [{"tier": tier, "space": "locale", "kinds": KINDS}]
+    return [{"tier": tier, "space": "locale", "kinds": [k]} for k in KINDS]
+
+
+def locale_cases_of(block):
+    quick = block["tier"] == "quick"
+    A = [None, ["/data", "str", False], ["/data/ü/深", "str", False]]
+    S = [["file"], ["sub_space"], ["unicode"], ["sibling"]]
+    B = [None, ["/other", "str"]]
+    if not quick:
+        A += [["/data", "Path", False], ["/data/ü/深", "Path", True], ["/data/a b", "str", True]]
+        S = [[s] for s in BASE_SHAPES] + [list(t) for t in itertools.product(["file", "unicode", "sibling"], repeat=2)]
+        B += [["same", "Path"], ["rel/dir", "str"]]
+    for kind in block["kinds"]:
+        for a in A:
+            for shapes in S:
+                for b in B:
+                    for pre in (False, True):
+                        yield {"env": ENV_C, "kind": kind, "a": a, "shapes": shapes, "b": b, "pre": pre}
+
+
+def child_env():
+    import soundevent
+    verif = os.path.dirname(os.path.dirname(os.path.abspath(__file__)))
+    src = os.path.dirname(os.path.dirname(os.path.abspath(soundevent.__file__)))
+    env = dict(LOCALE_ENV)
+    env["PATH"] = os.environ.get("PATH", "/usr/bin:/bin")
+    env["PYTHONPATH"] = verif + os.pathsep + src
+    return env, verif
+
+
+def run_in_child(cases):
+    """Execute the cases in ONE child interpreter under the C locale; returns (list of Out, locale encoding of the child)."""
+    env, verif = child_env()
+    tdir = os.path.join(scratch_dir(), "c18-locale")
+    os.makedirs(tdir, exist_ok=True)
+    payload = json.dumps({"scratch": tdir, "cases": cases}).encode("ascii")  # ensure_ascii: pure ASCII on the pipe
+    p = subprocess.run([sys.executable, "-c", "from props import c18; c18.locale_worker()"], input=payload, capture_output=True,
+                       env=env, cwd=verif)
+    if p.returncode != 0:
+        raise RuntimeError("C18 locale child failed (%d): %s" % (p.returncode, p.stderr.decode("utf-8", "replace")[-1500:]))
+    doc = json.loads(p.stdout.decode("ascii"))
+    outs = []
+    for case, r in zip(cases, doc["results"]):
+        o = Out(case)
+        o.nontrivial, o.klass, o.transitions, o.validated = r["nontrivial"], r["klass"], r["transitions"], r["validated"]
+        o.checks = {k: list(v) for k, v in r["checks"].items()}
+        o.viol = r["viol"]
+        outs.append(o)
+    assert len(outs) == len(cases)
+    return outs, doc["encoding"]
+
+
+def locale_worker():
+    """Child side: JSON {scratch, cases} on stdin -> JSON {encoding, results} on stdout (ASCII only on both pipes)."""
+    global _TARGET_DIR
+    import locale
+    req = json.loads(sys.stdin.buffer.read().decode("ascii"))
+    _TARGET_DIR = req["scratch"]
+    res = []
+    for case in req["cases"]:
+        o = run_case_local(case)
+        res.append({"nontrivial": o.nontrivial, "klass": o.klass, "transitions": o.transitions, "validated": o.validated,
+                    "checks": o.checks, "viol": o.viol})
+    enc = "%s utf8_mode=%d" % (locale.getpreferredencoding(False), sys.flags.utf8_mode)
+    sys.stdout.buffer.write(jdump({"encoding": enc, "results": res}).encode("ascii"))
+    sys.stdout.buffer.flush()
+
+
+def run_case(case):
+    if case.get("env") == ENV_C:
+        return run_in_child([case])[0][0]
+    return run_case_local(case)
 
 
 def cases_of(block):
@@ -125,8 +219,14 @@ def cases_of(block):
 
 
 def run_block(block, rec):
+    if block.get("space") == "locale":
+        outs, enc = run_in_child(list(locale_cases_of(block)))
+        rec.count("locale_child_encoding:" + enc, len(outs))
+        for o in outs:
+            rec.add(o)
+        return
     for case in cases_of(block):
-        rec.add(run_case(case))
+        rec.add(run_case_local(case))
 
 
 # ---------------------------------------------------------------- inputs
@@ -298,7 +398,7 @@ def exc_repr(e):
     return "%s: %s" % (type(e).__name__, str(e)[:200])
 
 
-def run_case(case):
+def run_case_local(case):
     out = Out(case)
     kind, a, shapes, b, pre = case["kind"], case["a"], case["shapes"], case["b"], case["pre"]
     base = NOMINAL if a is None else a[0]
@@ -327,7 +427,7 @@ def run_case(case):
         selfs = [u for u in uuids if M.inside(orig[u], a[0]) and not M.strictly_inside(orig[u], a[0])]
     expect_save = "reject" if outside else ("either" if selfs else "ok")
 
-    target = os.path.join(scratch_dir(), "c18.json")
+    target = os.path.join(_TARGET_DIR or scratch_dir(), "c18.json")
     if pre:
         with open(target, "w", encoding="utf-8") as f:
             f.write(PREVIOUS)
@@ -358,8 +458,13 @@ def run_case(case):
             state = "absent" if untouched else "created"
         if expect_save == "ok":
             oracle = "passthrough" if a is None else "stored_relative"
+            # classify by the first recording whose stored text is not ASCII, if any (the text that reaches the file)
+            stext = {u: (orig[u] if a is None else "/".join(M.relative(orig[u], a[0]))) for u in uuids}
+            culprit = shape_of[next((u for u in uuids if not stext[u].isascii()), uuids[0])]
             out.fail(oracle, {"save_raised": exc_repr(err), "target": state}, "save succeeds",
-                     {"a": al, "shape": first_bad, "why": "save_raised:" + type(err).__name__}, {"paths": paths})
+                     {"a": al, "shape": culprit, "why": "save_raised:" + type(err).__name__}, {"paths": paths})
+            out.expect("failed_save_leaves_target", untouched, state, "unchanged" if pre else "absent",
+                       {"a": al, "shape": culprit, "why": "target_" + state.split(" ")[0]}, {"raised": exc_repr(err), "paths": paths})
             klass = "save_crash"
         else:
             cls = {"a": al, "shape": first_bad}
@@ -368,6 +473,8 @@ def run_case(case):
             out.expect("outside_raises_nothing_written", good, {"raised": exc_repr(err), "target": state},
                        {"raised": "ValueError subclass", "target": "unchanged" if pre else "absent"}, dict(cls, why=why),
                        {"paths": paths, "outside": [orig[u] for u in outside]})
+            out.expect("failed_save_leaves_target", untouched, state, "unchanged" if pre else "absent",
+                       dict(cls, why="target_" + state.split(" ")[0]), {"raised": exc_repr(err), "paths": paths})
             klass = "rejected:" + ("outside" if outside else "self") + (":mixed" if len(outside) + len(selfs) < len(uuids) else "")
     else:
         if expect_save == "reject":
@@ -480,6 +587,11 @@ def run_case(case):
     else:
         out.ok("all_types_thread_dir")
     out.klass = "%s n=%d" % (klass, len(uuids))
+    env = case.get("env")
+    if env:
+        out.klass = env + ":" + out.klass
+        for v in out.viol:
+            v["cls"] = dict(v["cls"], env=env)
     return out
 
 
